@@ -690,13 +690,37 @@ def _arr_reshape(ex, st, args, kw, node):
 
 ARRAY_METHODS = {"tolist": _arr_tolist, "copy": _arr_copy, "astype": _arr_astype, "any": _arr_any, "reshape": _arr_reshape}
 LIST_METHODS = {"append": _list_append, "extend": _list_extend}
-DICT_METHODS = {"get": _dict_get, "keys": _dict_keys}
+def _str_startswith(ex, st, args, kw, node):
+    t = getattr(args[0], "startswith_term", None)       # an opaque string may carry the (uninterpreted) answer to this question
+    if t is not None:
+        return t(args[1])
+    return z3.BoolVal(args[0].s.startswith(args[1].s))
+
+
+def _str_split(ex, st, args, kw, node):
+    """s.split(sep): an opaque list of strings"""
+    from . import objects
+    n = ex.fresh("n_parts", I)
+    st.pc.append(n >= 1)
+    return objects.new_symlist(ex, st, objects.STR_LIST, length=n, name="split")
+
+
+def _dict_pop(ex, st, args, kw, node):
+    d, k = args[0], args[1]
+    if not isinstance(k, StrV) or k.s not in d.items:
+        raise Undecided("dict.pop with a key that is not a constant present in the dictionary")
+    if d.owner != "fresh":
+        st.writes.append((d.owner, f"dict.pop({k.s!r})", node.lineno))
+    return d.items.pop(k.s)
+
+
 def _str_join(ex, st, args, kw, node):
     """sep.join(strings): an opaque string (string content is not modelled)"""
     return StrV("<joined>")
 
 
-STR_METHODS = {"lower": _str_lower, "endswith": _str_endswith, "join": _str_join}
+DICT_METHODS = {"get": _dict_get, "keys": _dict_keys, "pop": _dict_pop}
+STR_METHODS = {"lower": _str_lower, "endswith": _str_endswith, "join": _str_join, "startswith": _str_startswith, "split": _str_split}
 
 # A-NAN: NaN is a distinguished real constant; only storing it and testing for it (isnan) are meaningful - a contract that lets it reach
 # arithmetic or an ordering comparison would be wrong about IEEE semantics, so such contracts must keep it out by precondition
